@@ -336,6 +336,63 @@ Section SpecWithAlnum.
     let body := concat (map render_litem (sl_items l)) in
     (match sl_items l with [] => 0%nat | _ => (length lead + rstrip_seps_len (sl_items l))%nat end,
      (length lead + length body)%nat).
+
+  (** ** LIST symbols.  "A non-empty list is rendered by separating the elements with a single space"
+      wherever a string is wanted (inside soft quotes, next to other characters); an element of a
+      list that is exactly one NAKED reference to a list symbol is replaced by the elements of that
+      list ("concatenated with the surrounding elements").  [lsyms] says which symbols are lists; the
+      symbol table [env] holds their string rendering. *)
+  Definition lsyms := list (text * list text).
+  Fixpoint lookup_list (ls : lsyms) (n : text) : option (list text) :=
+    match ls with
+    | [] => None
+    | (k, v) :: ls' => if text_eqb k n then Some v else lookup_list ls' n
+    end.
+  Fixpoint join_sp (els : list text) : text :=
+    match els with
+    | [] => []
+    | [x] => x
+    | x :: els' => x ++ 32 :: join_sp els'
+    end.
+  Definition lsyms_consistent (e : env) (ls : lsyms) : bool :=
+    forallb (fun kv => option_eqb text_eqb (lookup e (fst kv)) (Some (join_sp (snd kv)))) ls.
+
+  (** the written element [t] stands for several elements *)
+  Definition splices (ls : lsyms) (t : stoken) : option (list text) :=
+    if all_naked t then
+      match ref_split (chars_tok t) with
+      | [FSym n] => lookup_list ls n
+      | _ => None
+      end
+    else None.
+
+  (** the observed elements / arguments are exactly the written ones *)
+  Fixpoint match_elements (e : env) (ls : lsyms) (ts : list stoken) (obs : list text) : bool :=
+    match ts with
+    | [] => match obs with [] => true | _ => false end
+    | t :: ts' =>
+        match splices ls t with
+        | Some els =>
+            Nat.leb (length els) (length obs) && list_eqb text_eqb (firstn (length els) obs) els &&
+            match_elements e ls ts' (skipn (length els) obs)
+        | None =>
+            match obs with
+            | o :: obs' => denotes e t o && match_elements e ls ts' obs'
+            | [] => false
+            end
+        end
+    end.
+
+  (** program arguments: a list whose elements are rich strings; the cases use ordinary strings
+      only (no here-document / :> element) and no path options *)
+  Definition arg_option_like : list text :=
+    [[45;101;120;105;115;116;105;110;103;45;102;105;108;101];
+     [45;101;120;105;115;116;105;110;103;45;100;105;114];
+     [45;101;120;105;115;116;105;110;103;45;112;97;116;104]].
+  Definition wf_args (l : slist) : bool :=
+    wf_slist l &&
+    forallb (fun t => plain_for_rich t && negb (negb (tok_quoted t) && existsb (text_eqb (chars_tok t)) arg_option_like))
+            (list_tokens l).
 End SpecWithAlnum.
 
 (** * Part 2: cases of the correspondence check *)
@@ -389,6 +446,11 @@ Inductive list_obs :=
 | LObs (els : list element) (resolved : list text) (pos : nat)
 | LExn (e : exn).
 
+Inductive args_obs :=
+| AObs (argv : list text)          (* the probe ran: its arguments *)
+| ASyntax (line_ok : bool)         (* SYNTAX_ERROR reported (at the line of the instruction?) *)
+| AOther.                          (* anything else *)
+
 Definition element_eqb (a b : element) : bool :=
   match a, b with
   | ESym n, ESym n' => text_eqb n n'
@@ -408,8 +470,10 @@ Inductive case :=
           (toks : list tokobs) (fin : ts_end)
 (** parse_string_sdv / RichStringParser on a stream; [Some (lead, r)]: written from this structure *)
 | CParse (k : pkind) (o : oracle) (e : env) (src : text) (structure : option (text * rich)) (obs : parse_obs)
-(** parse_list *)
-| CList (o : oracle) (e : env) (src : text) (structure : option (text * slist)) (obs : list_obs)
+(** parse_list ([is_args = false]) / the program-argument parser ([is_args = true]) at parser level *)
+| CList (is_args : bool) (o : oracle) (e : env) (ls : lsyms) (src : text) (structure : option (text * slist)) (obs : list_obs)
+(** end to end: the argument vector a probe program received from  % probe ARG...  *)
+| CArgs (o : oracle) (e : env) (ls : lsyms) (src : text) (structure : text * slist) (obs : args_obs)
 (** symbol_syntax.split on a text *)
 | CSplit (o : oracle) (s : text) (frs : list fragment).
 
@@ -417,9 +481,16 @@ Definition env_chars (e : env) : text := flat_map (fun kv => fst kv ++ snd kv) e
 
 Definition in_range (lo hi p : nat) : bool := Nat.leb lo p && Nat.leb p hi.
 
-(** resolved value of an element of a list (all symbols of the cases are strings) *)
-Definition resolve_element (e : env) (el : element) : option text :=
-  match el with ESym n => lookup e n | EStr frs => resolve e frs end.
+(** the values an element of a list stands for: a bare reference to a list symbol gives its
+    elements, every other element one string *)
+Definition resolve_element (e : env) (ls : lsyms) (el : element) : option (list text) :=
+  match el with
+  | ESym n => match lookup_list ls n with
+              | Some els => Some els
+              | None => match lookup e n with Some v => Some [v] | None => None end
+              end
+  | EStr frs => match resolve e frs with Some v => Some [v] | None => None end
+  end.
 Fixpoint all_some {A} (l : list (option A)) : option (list A) :=
   match l with
   | [] => Some []
@@ -511,20 +582,25 @@ Definition check_case (c : case) : bool * bool :=
             | _, _ => false
             end
         end )
-  | CList o e src st obs =>
+  | CList is_args o e ls src st obs =>
       let al := oracle_fn o in
-      let model := do ts <- ts_init src; do r <- list_parse al ts; Ok (fst r, ts_position (snd r)) in
-      ( oracle_covers o (src ++ env_chars e) &&
+      let model := do ts <- ts_init src;
+                   do r <- (if is_args then args_parse al ts else list_parse al ts);
+                   Ok (fst r, ts_position (snd r)) in
+      ( oracle_covers o (src ++ env_chars e) && lsyms_consistent e ls &&
         match model, obs with
         | Ok (els, pos), LObs els' resolved pos' =>
             list_eqb element_eqb els els' && Nat.eqb pos pos' &&
-            option_eqb (list_eqb text_eqb) (all_some (map (resolve_element e) els')) (Some resolved)
+            option_eqb (list_eqb text_eqb)
+                       (match all_some (map (resolve_element e ls) els') with Some l => Some (concat l) | None => None end)
+                       (Some resolved)
         | Raise ex, LExn ex' => exn_eqb ex ex'
         | _, _ => false
         end &&
         match st with
         | None => true
-        | Some (lead, l) => text_eqb src (lead ++ render_slist l) && forallb is_sep_no_nl lead && wf_slist l
+        | Some (lead, l) => text_eqb src (lead ++ render_slist l) && forallb is_sep_no_nl lead &&
+                            (if is_args then wf_args l else wf_slist l)
         end,
         match st with
         | None => true
@@ -532,11 +608,29 @@ Definition check_case (c : case) : bool * bool :=
             if list_must_fail l then match obs with LExn _ => true | _ => false end
             else match obs with
                  | LObs _ resolved pos =>
-                     forallb2 (denotes al e) (list_tokens l) resolved &&
+                     match_elements al e ls (list_tokens l) resolved &&
                      let '(lo, hi) := list_pos_range lead l in in_range lo hi pos
                  | LExn _ => false
                  end
         end )
+  | CArgs o e ls src (lead, l) obs =>
+      let al := oracle_fn o in
+      let model := do ts <- ts_init src; do r <- args_parse al ts; Ok (fst r) in
+      ( oracle_covers o (src ++ env_chars e) && lsyms_consistent e ls &&
+        text_eqb src (lead ++ render_slist l) && forallb is_sep_no_nl lead && wf_args l &&
+        match model, obs with
+        | Ok els, AObs argv =>
+            option_eqb (list_eqb text_eqb)
+                       (match all_some (map (resolve_element e ls) els) with Some r => Some (concat r) | None => None end)
+                       (Some argv)
+        | Raise _, ASyntax _ => true
+        | _, _ => false
+        end,
+        if list_must_fail l then match obs with ASyntax line_ok => line_ok | _ => false end
+        else match obs with
+             | AObs argv => match_elements al e ls (list_tokens l) argv
+             | _ => false
+             end )
   | CSplit o s frs =>
       let al := oracle_fn o in
       ( oracle_covers o s && list_eqb fragment_eqb (split al s) frs,
